@@ -143,6 +143,18 @@ pub fn variants(tier: Tier) -> Vec<WorldSpec> {
     }
     s.system.push(Row::new("あ", 1, 11, 400, P_PART));
     s.system.push(Row::new("あい", 2, 10, 700, P_PART));
+    // ... and more than sixteen / thirty-two nodes ending at one boundary, the cheapest listed last
+    for k in 0..24i32 {
+        s.system.push(Row::new("あ", 1 + (k % 11), 1 + ((k * 7) % 11), 5000 - 190 * k, P_PROPN));
+    }
+    v.push(s);
+    // more connection ids than a small cache has slots: ids that agree modulo 1024 (and 256)
+    let mut s = cost_spec("W-cost-wide-ids");
+    s.matrix = Matrix::generate(1100, 1100, |l, r| if l == 0 && r == 0 { 0 } else { ((l * 31 + r * 17 + (l / 256) * 977 + (r / 256) * 1231) % 4001) as i32 - 1500 });
+    for (i, (l, r)) in [(7i32, 5i32), (7, 1029), (1031, 5), (7, 261), (263, 1029), (1031, 1029)].iter().enumerate() {
+        s.system.push(Row::new("あ", *l, *r, 400 - 45 * i as i32, P_PROPN));
+        s.system.push(Row::new("い", *l, *r, 150 + 35 * i as i32, P_PROPN));
+    }
     v.push(s);
     // a connection-cost plugin that edits cells off the diagonal (the edited matrix is the one the
     // search has to use, and the cells have to be the configured ones)
@@ -411,8 +423,19 @@ impl Space for CostSpace {
         }
         // connection costs vs the declared matrix (for the ids that occur)
         let m = &self.world.spec.matrix;
+        // (every cell once per world, not once per text)
+        static MATRIX_CHECKED: std::sync::Mutex<Vec<String>> = std::sync::Mutex::new(Vec::new());
+        let first_time = {
+            let mut g = MATRIX_CHECKED.lock().unwrap();
+            if g.iter().any(|n| n == wname) {
+                false
+            } else {
+                g.push(wname.to_string());
+                true
+            }
+        };
         let inhibited: Vec<(usize, usize)> = self.world.spec.plugins.get("connectionCostPlugin").and_then(|p| p.as_array()).map(|a| a.iter().flat_map(|pl| pl["inhibitPair"].as_array().cloned().unwrap_or_default()).filter_map(|pr| Some((pr[0].as_u64()? as usize, pr[1].as_u64()? as usize))).collect()).unwrap_or_default();
-        for l in 0..m.left {
+        for l in 0..(if first_time { m.left } else { 0 }) {
             for r in 0..m.right {
                 let declared = if inhibited.contains(&(l, r)) { 32767 } else { m.cells[l][r] };
                 if self.conn(l as u16, r as u16) != declared as i64 {
